@@ -77,6 +77,32 @@ theorem insert_state (h : Ht2 α) (hi : Inv2 h) (ve : VEq α) (rve : Option (VEq
     · exact ⟨armed_inv _ hl, by simpa using hp⟩
     · exact ⟨hl, hp⟩
 
+/-- the structural invariant is kept by `insert` whatever the callbacks are -/
+theorem insert_inv (h : Ht2 α) (hi : Inv2 h) (ve : VEq α) (rve : Option (VEq α)) (check wm : Bool) (v : α) (hash : UInt32) :
+    Inv2 (h.insert ve rve check wm v hash).2 := by
+  by_cases hnf : check = true → (h.bucket hash).find? (hit ve true v hash) = none
+  · by_cases hfree : h.used < h.size
+    · rw [insert_eq h ve rve check wm v hash hnf hfree]
+      have hl := link_inv h hi v hash
+      split
+      · exact resizeTo_inv _ _ _ _ (by have := hi.pos; omega)
+      · simp only; split
+        · exact armed_inv _ hl
+        · exact hl
+    · have hm : (if check then (h.bucket hash).find? (hit ve true v hash) else none) = none := by
+        cases check with
+        | false => rfl
+        | true => simpa using hnf rfl
+      unfold insert; rw [hm]; simp only [hfree, not_false_eq_true, if_true]; exact hi
+  · have hc : check = true := by
+      cases check with
+      | false => exact absurd (fun h => by cases h) hnf
+      | true => rfl
+    subst hc
+    cases hf : (h.bucket hash).find? (hit ve true v hash) with
+    | none => exact absurd (fun _ => hf) hnf
+    | some r => unfold insert; simp only [if_true]; rw [hf]; exact hi
+
 theorem div_lt_of {a b c : Nat} (hb : 0 < b) (h : a < c * b) : a / b < c := by
   rw [Nat.div_lt_iff_lt_mul hb]; exact h
 
@@ -127,6 +153,32 @@ theorem insert_load (h : Ht2 α) (hi : Inv2 h) (hl : Load h) (ve : VEq α) (rve 
       have h0' : h.resize = 0 := by simpa using h0
       refine ⟨by rw [hu, link_size]; omega, ?_, by simpa using hl.rs⟩
       intro hc; simp [h0'] at hc
+
+theorem insert_unchanged (h : Ht2 α) (ve : VEq α) (rve : Option (VEq α)) (check wm : Bool) (v : α) (hash : UInt32)
+    (hc : ¬ ((check = true → (h.bucket hash).find? (hit ve true v hash) = none) ∧ h.used < h.size)) :
+    (h.insert ve rve check wm v hash).2 = h := by
+  by_cases hnf : check = true → (h.bucket hash).find? (hit ve true v hash) = none
+  · have hfree : ¬ h.used < h.size := fun hf => hc ⟨hnf, hf⟩
+    have hm : (if check then (h.bucket hash).find? (hit ve true v hash) else none) = none := by
+      cases check with
+      | false => rfl
+      | true => simpa using hnf rfl
+    unfold insert; rw [hm]; simp only [hfree, not_false_eq_true, if_true]
+  · have hc : check = true := by
+      cases check with
+      | false => exact absurd (fun h => by cases h) hnf
+      | true => rfl
+    subst hc
+    cases hf : (h.bucket hash).find? (hit ve true v hash) with
+    | none => exact absurd (fun _ => hf) hnf
+    | some r => unfold insert; simp only [if_true]; rw [hf]
+
+/-- `insert` keeps the load invariant in every case -/
+theorem insert_load_all (h : Ht2 α) (hi : Inv2 h) (hl : Load h) (ve : VEq α) (rve : Option (VEq α)) (check wm : Bool) (v : α)
+    (hash : UInt32) : Load (h.insert ve rve check wm v hash).2 := by
+  by_cases hc : (check = true → (h.bucket hash).find? (hit ve true v hash) = none) ∧ h.used < h.size
+  · exact insert_load h hi hl ve rve check wm v hash hc.1 hc.2
+  · rw [insert_unchanged h ve rve check wm v hash hc]; exact hl
 
 /-! ### remove -/
 
@@ -209,6 +261,18 @@ theorem remove_state (h : Ht2 α) (hi : Inv2 h) (ve : VEq α) (rve : Option (VEq
     unfold Distinct at this ⊢
     exact (List.pairwise_cons.1 this).2
   · exact ⟨hui, hup⟩
+
+theorem remove_inv (h : Ht2 α) (hi : Inv2 h) (ve : VEq α) (rve : Option (VEq α)) (v : α) (hash : UInt32) :
+    Inv2 (h.remove ve rve v hash).2 := by
+  cases hf : (h.bucket hash).find? (hit ve true v hash) with
+  | none => rw [remove_absent h ve rve v hash hf]; exact hi
+  | some r =>
+    rw [remove_eq h ve rve v hash r hf]
+    simp only
+    split
+    · rename_i hs
+      exact resizeTo_inv _ _ _ _ (by have := hs.2.2; simp only [LYHT_MIN_SIZE, unlink_size] at this; omega)
+    · exact (unlink_spec h hi ve v hash r hf).1
 
 theorem remove_load (h : Ht2 α) (hi : Inv2 h) (hl : Load h) (ve : VEq α) (rve : Option (VEq α)) (v : α) (hash : UInt32) :
     Load (h.remove ve rve v hash).2 := by
